@@ -166,6 +166,56 @@ func runStoreHistory(r *vh.Run, name string, t *chainx.Tree, sched [][]int, dir 
 			reorgs++
 		}
 	}
+	// the same history as the previous release left it on disk: every backend is turned into a
+	// version-3 database (chainx.MakePreMigrationDB) and reopened, which runs the migration; the
+	// migrated stores must agree with each other and keep the chain
+	if n%2 == 0 {
+		var refObs, refDump string
+		for i, sn := range nodes {
+			before := c01.Observe(t, sn.nd, "ok")
+			obs, dump := "", ""
+			func() {
+				defer debug.SetPanicOnFault(debug.SetPanicOnFault(true))
+				defer func() {
+					if rec := recover(); rec != nil {
+						obs = fmt.Sprintf("panic: %v", rec)
+					}
+				}()
+				if err := sn.nd.Store.Flush(); err != nil {
+					obs = "flush-error: " + err.Error()
+					return
+				}
+				if _, err := chainx.MakePreMigrationDB(sn.nd.DB, 3); err != nil {
+					obs = "rewrite-error: " + err.Error()
+					return
+				}
+				nd2, err := t.Net.NewNode(sn.nd.DB)
+				if err != nil {
+					obs = "reopen-error: " + err.Error()
+					return
+				}
+				nd2.Reorgs = sn.nd.Reorgs
+				sn.nd = nd2
+				obs = c01.Observe(t, sn.nd, "ok")
+				dump, _ = dumpDB(sn.nd.DB)
+			}()
+			if i == 0 {
+				refObs, refDump = obs, dump
+				c.Op("migrate 3", obs+" dump "+dump)
+				c.Tags = append(c.Tags, "migrated-from-version-3")
+			}
+			switch {
+			case strings.HasPrefix(obs, "panic"), strings.Contains(obs, "-error: "):
+				c.Oracle("store-"+sn.name+"-migration-failed", "DBStore over %s: reopening the version-3 form of the database: %s", sn.name, obs)
+			case obs != before:
+				c.Oracle("store-"+sn.name+"-migration-changed-chain", "DBStore over %s: before the migration %s, after %s", sn.name, before, obs)
+			case obs != refObs:
+				c.Oracle("store-"+sn.name+"-result-differs", "DBStore over %s after the migration: %s, over MemDB: %s", sn.name, obs, refObs)
+			case dump != refDump:
+				c.Oracle("store-"+sn.name+"-contents-differ", "DBStore over %s: bucket contents differ from the MemDB-backed store after the migration (%s vs %s)", sn.name, dump, refDump)
+			}
+		}
+	}
 	c.Nontrivial = reorgs > 1
 	c.Info = map[string]any{"blocks": len(t.Blocks), "batches": len(sched), "bucket_sizes_at_end": lastSizes}
 	r.Add(c)
